@@ -1667,7 +1667,9 @@ impl Bundle {
                 return None;
             }
             // IO Finalizer has run, and neither bundle has excess spends or outputs.
-            (Some(_), _) | (_, Some(_)) => (),
+            (Some(_), _) => (),
+            // Only the other bundle carries `bsk`; keep it.
+            (None, Some(rhs)) => self.bsk = Some(rhs),
             // IO Finalizer has not run on either bundle.
             (None, None) => match (
                 self_global.shielded_modifiable(),
